@@ -49,7 +49,8 @@ GROUPS = {
     ('clear_slice_meta_is_model', 'clear_slice_meta_model'), ('get_keys_is_model', 'get_keys_model')]),
  'insertall': ('dcmmeta.py: _insert as a whole',
    [('insert_leaves_other_unchanged', 'insert_whole_eq'), ('insert_on_model_extension', 'insert_whole_on_ext'),
-    ('insert_treats_keys_independently', 'insert_try_per_key')]),
+    ('insert_treats_keys_independently', 'insert_try_per_key'),
+    ('insert_treats_keys_independently_on_model_extension', 'insert_try_per_key_on_ext')]),
  'filter': ('dcmstack.py: make_key_regex_filter and its inner function',
    [('key_regex_filter_is_model', 'key_regex_filter_eq')]),
  'orient': ('dcmstack.py: the voxel_order checks of reorder_voxels',
